@@ -97,11 +97,7 @@ Section Carry.
              eapply IH; [|exact H]; eapply dict_combine_ok; [exact Hd| |exact C];
              first [ destruct plain as [P|P]; [exact P|discriminate P]
                    | split; [right; split; reflexivity|intros _; split; reflexivity] ]).
-      + (* function *)
-        destruct (mem_string (tname t) functions); [eapply IH; eauto|].
-        eapply IH; [|exact H]. apply dict_set_ok; [exact Hd|].
-        split; [left; split; reflexivity|intros X; discriminate X].
-      + (* verbatim *) eapply IH; eauto.
+      (* verbatim *) eapply IH; eauto.
   Qed.
 
   Theorem equation_symbols_carry terms syms :
